@@ -10,7 +10,7 @@ let code_variant = Fixed
 let second_repair = true
 (* set to true once patches/0003-encoding-init-states-in-dependency-order.diff is applied to /repo as well: the
    init block of init_at(0) is then the one of Encoding.init_at3 (states in the order of Encoding.init_order) *)
-let third_repair = false
+let third_repair = true
 (* the init block of init_at(0) after the repairs that are applied *)
 let repaired_init_block ?(third = third_repair) en = if third then init_at3 en else init_at2 en
 
